@@ -507,7 +507,9 @@ Definition check_k7 (ts : list N) : list N :=
   | [] => v_bad
   end.
 
-Definition check_k8 (ts : list N) : list N :=
+(* [tcchk] (C04): an error reply is complete -- it has no records to drop -- so TC on it claims a truncation
+   that did not happen *)
+Definition check_k8g (tcchk : bool) (ts : list N) : list N :=
   match t_pkt ts with
   | Some (q, kind :: ts) =>
     match t_bytes ts with
@@ -528,6 +530,7 @@ Definition check_k8 (ts : list N) : list N :=
             | RVal r =>
               if negb ((qid r =? qid q) && name_eqb (qname r) (qname q) && (qtype r =? qtype q)
                        && (qclass r =? qclass q) && qr r) then v_viol P_IDQ
+              else if tcchk && tc r then v_viol P_TC
               else if negb (pkt_eqb r (in_error q kind (edns_of r)) && edns_accept q (edns_of r) 1)
               then v_diff [0; 1]
               else check_reply_wire r e1 d2 80
@@ -538,6 +541,8 @@ Definition check_k8 (ts : list N) : list N :=
     end
   | _ => v_bad
   end.
+
+Definition check_k8 := check_k8g false.
 
 Definition ttl_aged (dec : N) (a b : list rr) : bool :=       (* a = aged b *)
   list_eqb (fun x y => rr_eqb (strip_ttl x) (strip_ttl y) && (r_ttl x + dec =? r_ttl y)) a b.
